@@ -104,6 +104,9 @@ def parse_output(text, harnesses):
             if r["covers"] and r["covers"][0] != r["covers"][1]:
                 r["status"] = "undecided"
                 r["reason"] = "vacuity: %d of %d cover points reached" % r["covers"]
+        elif "CBMC failed" in body and "Failed Checks" not in body and "timed out" not in body:
+            r["status"] = "undecided"
+            r["reason"] = "CBMC aborted (memory watchdog or crash)"
         elif "CBMC timed out" in body or "timed out" in body:
             r["status"] = "undecided"
             r["reason"] = "harness timeout"
@@ -141,15 +144,59 @@ def classify_check(fc):
     return "violation"
 
 
+def run_watched(cmd, cwd, timeout, mem_limit_kb=14 * 1024 * 1024):
+    """run cmd; kill any cbmc descendant whose RSS exceeds the limit (-> that harness is undecided)"""
+    import subprocess, threading, time as _t
+    from common import env
+    p = subprocess.Popen(cmd, cwd=cwd, env=env(), stdout=subprocess.PIPE, stderr=subprocess.STDOUT, text=True, errors="replace",
+                         start_new_session=True)
+    killed = []
+    stop = threading.Event()
+
+    def watch():
+        import os as _os
+        while not stop.is_set():
+            try:
+                out = subprocess.run(["ps", "-eo", "pid,ppid,sid,rss,comm"], stdout=subprocess.PIPE, text=True).stdout
+                for ln in out.split("\n")[1:]:
+                    f = ln.split()
+                    if len(f) >= 5 and f[4].startswith("cbmc") and f[2] == str(p.pid) and int(f[3]) > mem_limit_kb:
+                        try:
+                            _os.kill(int(f[0]), 9)
+                            killed.append(int(f[0]))
+                        except Exception:
+                            pass
+            except Exception:
+                pass
+            stop.wait(3)
+    th = threading.Thread(target=watch, daemon=True)
+    th.start()
+    t0 = _t.time()
+    try:
+        so, _ = p.communicate(timeout=timeout)
+        rc = p.returncode
+    except subprocess.TimeoutExpired:
+        import os as _os, signal as _sig
+        try:
+            _os.killpg(p.pid, _sig.SIGKILL)
+        except Exception:
+            pass
+        so, _ = p.communicate()
+        rc = -9
+        so = (so or "") + "\nTIMEOUT"
+    stop.set()
+    return rc, so or "", "", _t.time() - t0, killed
+
+
 def run_harnesses(harnesses, features=None, jobs=16, timeout_s=300, target="kani", wall_timeout=None):
     names = harness_full_names()
     missing = [h for h in harnesses if h not in names]
     if missing:
         return {"error": "harness not defined in /verif/kani: %s" % missing, "results": {}, "wall_s": 0, "cmd": ""}
     cmd = kani_cmd([names[h] for h in harnesses], features, min(jobs, max(1, len(harnesses))), timeout_s, target)
-    rc, so, se, wall = run(cmd, cwd=REPO, timeout=wall_timeout)
+    rc, so, se, wall, killed = run_watched(cmd, REPO, wall_timeout)
     text = so + "\n" + se
-    out = {"cmd": " ".join(cmd), "rc": rc, "wall_s": round(wall, 1), "results": {}, "error": ""}
+    out = {"cmd": " ".join(cmd), "rc": rc, "wall_s": round(wall, 1), "results": {}, "error": "", "oom_killed": len(killed)}
     if "error: could not compile" in text or "error[E" in text or re.search(r"^error: ", text, re.M) and "VERIFICATION" not in text:
         errs = re.findall(r"^(error(?:\[E\d+\])?: .*)$", text, re.M)
         out["error"] = "build failed: " + " | ".join(errs[:8])
